@@ -28,13 +28,16 @@ def vectors(ctx, states):
             combos = [combos[k % 4], combos[(k + 1 + (k // 4) % 3) % 4]]
         for swap, evn in combos:
             te, to = (2 + k % 7, 1) if evn else (1, 1 + (k % 3))   # ties (te == to) count as 'odd newest'
-            tq = 1 if k % 5 == 0 else 0        # quarter-second stamps: both frames inside one whole second
+            # stamp resolution and representation are drawn independently of everything else (no aliasing between the case
+            # counter's residues): quarter-second stamps put both frames inside one whole second; dt: 0 numbers, 1 naive
+            # datetimes, 2 aware datetimes from two time zones, 3 numpy scalars
+            tq = 1 if rng.random() < 0.25 else 0
             if tq:
                 te, to = (4 * 7 + 3, 4 * 7 + 1) if evn else (4 * 7 + 1, 4 * 7 + 1 + (k % 3))
             f0, f1, t0, t1 = (fo, fe, to, te) if swap else (fe, fo, te, to)
             fn = "adsb.position" if (k + swap) % 2 else "adsb.airborne_position"
             V.append({"fn": fn, "f0": f0, "f1": f1, "t0": t0, "t1": t1, "ht": 1, "truth": truth, "kind": "air",
-                      "hasref": 0, "r": 0, "s": 0, "dt": 1 if k % 11 == 0 or k % 35 == 0 else 0, "tq": tq,
+                      "hasref": 0, "r": 0, "s": 0, "dt": rng.choice([0, 0, 0, 0, 0, 0, 1, 1, 2, 3]), "tq": tq,
                       "case": [c["a0"], c["o0"], c["a1"] - c["a0"], c["o1"] - c["o0"], swap, evn]})
         if k % 9 == 0:   # same parity must be refused
             V.append({"fn": "adsb.position" if k % 2 else "adsb.airborne_position", "f0": fe, "f1": fe, "t0": 1, "t1": 2,
